@@ -501,7 +501,7 @@ def handle_setup(E):
 
 # =========================================================================== C17 reconnect / C11 close
 
-@harness('c17.connect_gives_fresh_state', ['C17', 'C13', 'C14', 'C03', 'C10', 'C15', 'C11', 'C05', 'C16'], functions=[CLIENT + '.connect', BASE + '._reset_internals', BASE + '._start_tasks',
+@harness('c17.connect_gives_fresh_state', ['C17', 'C13', 'C14', 'C03', 'C10', 'C15', 'C11', 'C05', 'C16', 'C01', 'C08'], functions=[CLIENT + '.connect', BASE + '._reset_internals', BASE + '._start_tasks',
                                                                            SC + '.__init__'],
          replay='c17_reconnect',
          assumptions=['pre-state arbitrary: any old stream table / queues / lease, alive flag either value (previous connection ended by EOF, '
